@@ -38,7 +38,7 @@ def in_fragment(spec):
 
 def plan(tier, seed):
     return [{"shard": i, "nshards": NSHARDS, "nmax": 5 if tier == "quick" else 6,
-             "n_random": 400 if tier == "quick" else 40000, "n_large": 32 if tier == "quick" else 400} for i in range(NSHARDS)]
+             "n_random": 400 if tier == "quick" else 400000, "n_large": 32 if tier == "quick" else 4000} for i in range(NSHARDS)]
 
 
 def cases(desc):
